@@ -325,6 +325,87 @@ theorem residuals_exist (s : Spec) (A B : QMat) (c : QVec) (X D : QMat) :
 end Model
 end IrisVerif.C18
 
+/-! ## Part 3: the public wrappers as functions — what `estimate(target_db=…)` returns, request histories on one variant -/
+
+namespace IrisVerif.C18
+open IrisVerif IrisVerif.RedVar
+
+/-- **`left | right`: the right operand wins, everything else is carried over** -/
+theorem dbUnion_lookup {α : Type} (left right : DB α) (k : String) :
+    dbLookup (dbUnion left right) k = match dbLookup right k with
+      | some v => some v
+      | none => dbLookup left k := by
+  unfold dbUnion
+  rw [dbLookup_append, dbHas_map left (fun p => (dbLookup right p.1).getD p.2),
+    dbLookup_map left (fun n v => (dbLookup right n).getD v)]
+  by_cases hl : dbHas left k = true
+  · rw [if_pos hl]
+    have := dbHas_iff_lookup left k
+    rw [hl] at this
+    cases hlk : dbLookup left k with
+    | none => rw [hlk] at this; simp at this
+    | some v => cases dbLookup right k <;> simp
+  · rw [if_neg hl]
+    have hl' : dbHas left k = false := by simpa using hl
+    rw [dbLookup_filter_not right (dbHas left) k hl']
+    have := dbHas_iff_lookup left k
+    rw [hl'] at this
+    cases hlk : dbLookup left k with
+    | some v => rw [hlk] at this; simp at this
+    | none => cases dbLookup right k <;> simp
+
+/-- **What `estimate` returns.** Every name the estimation produces (the data it was given and the residual series) has
+its *fresh* value in the returned databox, whatever the target held under that name; every other name of the target is
+carried over unchanged; without a target the output itself is returned. (The functions are pure: the target is an
+argument, not a mutable cell, so it cannot be changed by the call.) -/
+theorem estimateReturn_spec {α : Type} (target : Option (DB α)) (output : DB α) (k : String) :
+    (∀ v, dbLookup output k = some v → dbLookup (estimateReturn target output) k = some v) ∧
+    (dbLookup output k = none → dbLookup (estimateReturn target output) k = (target.bind (fun t => dbLookup t k))) := by
+  cases target with
+  | none =>
+    unfold estimateReturn
+    exact ⟨fun v h => h, fun h => by simp [h]⟩
+  | some t =>
+    unfold estimateReturn
+    simp only [dbUnion_lookup]
+    exact ⟨fun v h => by rw [h], fun h => by rw [h]; rfl⟩
+
+/-- the memo's invariant: empty, or exactly the companion matrix of the coefficients in force -/
+def MemoInv (s : Spec) (A : QMat) (st : VMemo) : Prop := st.companionT = none ∨ st.companionT = some (companionT s A)
+
+/-- **Refinement to the stateless specification, for every request history.** Whatever sequence of ordinary and
+deviation-mode requests is made on one variant, request number `k` is answered with the companion matrix of the
+coefficients and the constant *of the mode it asked for* (`[c; 0]`, or zeros in deviation mode) — no answer depends on
+the requests made before it; and the memo invariant is preserved. -/
+theorem runRequests_spec (s : Spec) (A : QMat) (c : Option QVec) (reqs : List Bool) (st : VMemo) (h : MemoInv s A st) :
+    (runRequests s A c st reqs).2 = reqs.map (fun d => (companionT s A, companionK s (if d then none else c))) ∧
+    MemoInv s A (runRequests s A c st reqs).1 := by
+  induction reqs generalizing st with
+  | nil => exact ⟨rfl, h⟩
+  | cons d ds ih =>
+    have hT : (match st.companionT with | some T => T | none => companionT s A) = companionT s A := by
+      rcases h with h | h <;> rw [h]
+    have hreq : requestCompanion s A c st d
+        = (⟨some (companionT s A)⟩, (companionT s A, companionK s (if d then none else c))) := by
+      unfold requestCompanion
+      rcases h with h | h <;> simp only [h]
+    have hst : MemoInv s A (requestCompanion s A c st d).1 := by
+      rw [hreq]; exact Or.inr rfl
+    have := ih (requestCompanion s A c st d).1 hst
+    unfold runRequests
+    simp only [List.map_cons]
+    refine ⟨?_, this.2⟩
+    rw [this.1, hreq]
+
+-- non-vacuity: the empty memo satisfies the invariant, and a target holding stale residuals is overridden
+example (s : Spec) (A : QMat) : MemoInv s A {} := Or.inl rfl
+example : dbLookup (estimateReturn (some [("res_y", 7), ("extra", 1)]) [("y", 2), ("res_y", 3)]) "res_y" = some 3
+    ∧ dbLookup (estimateReturn (some [("res_y", 7), ("extra", 1)]) [("y", 2), ("res_y", 3)]) "extra" = some 1 := by
+  decide
+
+
+end IrisVerif.C18
+
 /-! ## non-vacuity -/
 
 namespace IrisVerif.C18
